@@ -101,6 +101,7 @@ type stats struct {
 	samples     []json.RawMessage
 	perVariant  map[string]int
 	simTimeHist map[string]int64
+	unstable    int
 }
 
 func newStats() *stats {
@@ -349,6 +350,7 @@ func cmdCheck(args []string) int {
 	kf := loadKnownFindings(filepath.Join(verifDir, "known_findings.json"))
 	exit := 0
 	violations := 0
+	unstable := 0
 	knownHit := map[string]bool{}
 	var pk []string
 	for id := range preKnown {
@@ -421,6 +423,15 @@ func cmdCheck(args []string) int {
 			continue
 		}
 		rp := o.rp
+		if !rp.Reproduced && (rp.Violation.Oracle == "isolation" || rp.Violation.Oracle == "cold_nondeterminism") {
+			// An observation difference that two further runs of the very same plan
+			// in fresh processes do not show is not evidence of history dependence:
+			// the observation itself is unstable (Go map order somewhere). It is
+			// inconclusive: counted in the evidence, shown on stderr, not reported.
+			unstable++
+			fmt.Fprintf(os.Stderr, "[check] inconclusive (not reproduced in 2 fresh runs of the same plan): %s plan %d %s: %s\n", f.Variant, f.Index, rp.Violation.Sig, clip(rp.Violation.Detail, 300))
+			continue
+		}
 		violations++
 		path := filepath.Join(verifDir, "replays", fmt.Sprintf("%s-%d-%s.json", *prop, *seed, plan.HashOf(rp)[:10]))
 		os.MkdirAll(filepath.Dir(path), 0o755)
@@ -434,6 +445,7 @@ func cmdCheck(args []string) int {
 		exit = 1
 	}
 
+	st.unstable = unstable
 	writeEvidence(*prop, *tier, *seed, st, rn, variants, violations, len(knownHit), time.Since(t0), n)
 	fmt.Fprintf(os.Stderr, "[check] %s %s: %d plans, %d cases, %d violations, %d known findings, %.1fs\n", *prop, *tier, st.plans, st.cases, violations, len(knownHit), time.Since(t0).Seconds())
 	return exit
